@@ -68,24 +68,37 @@ def boundFilter (bound : Ty) : List Ty → FR (List Ty)
     | .attrError => .attrError
     | .fuel => .fuel
 
+def FR.bind {α β} (x : FR α) (f : α → FR β) : FR β :=
+  match x with
+  | .ok a => f a | .typeError => .typeError | .attrError => .attrError | .fuel => .fuel
+
+/-- the set the search starts from: the loop over `types`, or `etype.get_supertypes()` -/
+def startSet (etype : Ty) (types : List Ty) (getSub : Bool) : FR (List Ty) :=
+  if getSub then subLoop etype types [] else .ok (toSet (closure etype))
+
+/-- `if isinstance(etype, ParameterizedType): t_set.add(_construct_related_types(…))` -/
+def withRelated (etype : Ty) (related : Option Ty) (s0 : List Ty) : List Ty :=
+  match related with
+  | some r => if etype.isParam then addTy s0 r else s0
+  | none => s0
+
+/-- `t_set.add(etype)` / `t_set.discard(etype)` -/
+def withSelf (includeSelf : Bool) (etype : Ty) (s1 : List Ty) : List Ty :=
+  if includeSelf then addTy s1 etype else discardTy s1 etype
+
+/-- the greatest-bound filter of the supertype direction -/
+def finish (getSub : Bool) (bound : Option Ty) (s2 : List Ty) : FR (List Ty) :=
+  match getSub, bound with
+  | false, some b => boundFilter b s2
+  | _, _ => .ok s2
+
 /-- `_find_types(etype, types, get_subtypes, include_self, bound, concrete_only=False)`;
     `related` is the value `_construct_related_types` returned (asked for exactly when `etype`
     is an instantiation) -/
 def findTypes (etype : Ty) (types : List Ty) (getSub includeSelf : Bool) (bound : Option Ty)
     (related : Option Ty) : FR (List Ty) :=
-  let start : FR (List Ty) :=
-    if getSub then subLoop etype types [] else .ok (toSet (closure etype))
-  match start with
-  | .ok s0 =>
-    let s1 := match related with
-      | some r => if etype.isParam then addTy s0 r else s0
-      | none => s0
-    let s2 := if includeSelf then addTy s1 etype else discardTy s1 etype
-    (match getSub, bound with
-     | false, some b =>
-        boundFilter b s2
-     | _, _ => .ok s2)
-  | e => e
+  (startSet etype types getSub).bind fun s0 =>
+    finish getSub bound (withSelf includeSelf etype (withRelated etype related s0))
 
 /-- the search without the randomised construction of a related instantiation -/
 def findTypesNominal (etype : Ty) (types : List Ty) (getSub includeSelf : Bool)
